@@ -257,7 +257,7 @@ class kFlowDecompCycles(walkmodel.AbstractWalkModelDiGraph):
                     )
 
             self.solver.add_constraint(
-                self.solver.quicksum(self.pi_vars[(u, v, i)] for i in range(self.k)) == f_u_v,
+                self.solver.quicksum(self.pi_vars[(u, v, i)] for i in range(self.k)) == float(f_u_v),
                 name=f"i={i}_u={u}_v={v}_10d",
             )
 
